@@ -115,12 +115,19 @@ func checkC01(run *h.Run) {
 						}
 						nontriv++
 						if why := judgeC01(p, w.mreqs[qi], router, o, b.Log); why != "" {
-							rc := routingCase{Sweep: sp.Name, Router: router.String(), Table: t, Req: w.reqs[qi], Serve: serve, Filter: true, Observed: o}
+							rc := routingCase{Sweep: sp.Name, Router: router.String(), Table: t, Req: w.reqs[qi], Serve: serve, Filter: true, Observed: o, Tier: run.Tier, ReqIndex: qi}
 							qi, serve := qi, serve
-							run.Violate("unsound-invocation/"+router.String(), "", fmt.Sprintf("[%s serve=%v] %v ; %v : %s", router, serve, t, w.reqs[qi], why), rc, func() bool {
+							run.ViolateH("unsound-invocation/"+router.String(), "", fmt.Sprintf("[%s serve=%v] %v ; %v : %s", router, serve, t, w.reqs[qi], why), rc, func() bool {
 								b2 := rs.Build(t, rs.BuildOpt{Router: router, Filter: true})
 								o2 := b2.Do(w.reqs[qi].HTTP(), h.NewRec(), serve)
 								return judgeC01(p, w.mreqs[qi], router, o2, b2.Log) != ""
+							}, func() bool {
+								b3 := rs.Build(t, rs.BuildOpt{Router: router, Filter: true})
+								var o3 rs.Outcome
+								for k := 0; k <= qi; k++ {
+									o3 = b3.Do(w.reqs[k].HTTP(), h.NewRec(), serve)
+								}
+								return judgeC01(p, w.mreqs[qi], router, o3, b3.Log) != ""
 							})
 						} else if nontriv%4099 == 0 {
 							outcomes.Add(fmt.Sprintf("%s|%s", p.FullTemplate(0, 0), o.Key()))
